@@ -76,6 +76,79 @@ CLAIMED = {
             "into a registered pipeline must be reopened, a failure must be carried by the returned error.",
             "Iteration order over event types is a seeded choice (map range rewritten).",
             "deterministic simulation: seeded registry histories + single-node fault injection", "4 C20"),
+    "C08": ("exploration",
+            "One FileSink, 1-8 writer tasks, Reopen and logrotate-style external renames, clock advances around MaxDuration, MaxBytes 0..300, "
+            "MaxFiles 0..3, TimestampOnlyOnRotate; every os call of the sink goes through a wrapper over the real file system that records each "
+            "write(2) as ground truth. Oracle: each acknowledged event is exactly one whole write, no partial or stray writes, real-time order of "
+            "acknowledgements equals file order, a missing file implies MaxFiles>0 and the remaining files are the newest, files renamed away keep "
+            "their content, every inode's content equals the recorded writes. The crash mode stops the scheduler at a tape-chosen step (process "
+            "kill: completed system calls persist) and evaluates the same oracle with in-flight calls allowed zero or one whole write.",
+            "Crash = process kill, not power loss (no fsync semantics). Systematic crash-point enumeration per schedule is not built; crash steps are sampled.",
+            "deterministic simulation: seeded scheduler + file-system seam with crash points + write-log oracle", "4 C08"),
+    "C09": ("exploration",
+            "Payloads are generated from the statement's shape grammar (class-tagged string/[]byte/[]string/[][]byte/wrapper-value fields behind "
+            "pointers, slices, maps incl. struct values, interface values, nested structs, Taggable maps and structs, untagged maps; top-level "
+            "pointer, value, slice, map, *string, []string) with a unique canary in every leaf; overrides over {public,sensitive,secret} x "
+            "{none,redact,encrypt,hmac}; wrapper present / absent / keyless / failing for a content-addressed subset of plaintexts. A lock-step "
+            "walk of input and output checks each protected leaf (redacted, decrypts under the wrapper in force, or equals an independently computed "
+            "HMAC) plus a canary scan of the rendered event; any injected failure must give (nil, err).",
+            "Mostly input generation (stated honestly in DESIGN); the fault-dependent clause is the failing wrapper that fails mid-walk. Shapes outside "
+            "the statement's grammar (arrays, []interface{} of strings) are not generated.",
+            "deterministic simulation harness: seeded shape/config generation + wrapper fault injection + lock-step oracle", "4 C09"),
+    "C10": ("exploration",
+            "The C09 payload space: an independent deep copy built from the same recorded draws is compared with the input after Process (also after "
+            "failures); output shape, public and non-string values, lengths and keys are compared in lock-step; all-none overrides must return the very "
+            "same event. Schedule part: the filter runs as a non-root node of one pipeline while an observer node of a second pipeline and the Send "
+            "caller compare the event they hold with the snapshot at six scheduler-chosen instants.",
+            "copystructure is trusted per step (its internals are not interleaved).",
+            "deterministic simulation: seeded scheduler interleaving an observer pipeline with the filter + snapshot oracle", "4 C10"),
+    "C13": ("exploration",
+            "writer.Sink: 1-16 concurrent Process tasks, a writer that yields in the middle of each Write and fails or writes short on plan; "
+            "success implies exactly one contiguous copy of the configured format's bytes. FileSink: every os call may fail (EIO, ENOSPC, short "
+            "writes) per a tape-drawn fault plan; an acknowledged event must be exactly one whole write and nothing else; special paths "
+            "(/dev/null, stdout, stderr) are checked separately. ChannelSink: capacity 0-2, consumer early/late/never, timeout vs. context "
+            "deadline 100us around each other, pre-cancelled contexts; exactly one of {delivered, nil} / {error, not delivered}, never longer than "
+            "min(timeout, deadline) of simulated time (exact: discrete-event clock).",
+            "Timer ties (deadline == timeout) are avoided on purpose: their order is the Go runtime's.",
+            "deterministic simulation: fault-injecting writer and disk seams, simulated clock, seeded select order", "4 C13"),
+    "C14": ("exploration",
+            "JSON-value generator (nested maps, slices, structs, control and invalid UTF-8 bytes, large ints, NaN/Inf, channels, funcs) against a "
+            "round-trip oracle (one line, exactly three members, created_at/event_type/payload decode back, payload untouched, unencodable gives "
+            "(nil, err) and nothing stored, predicate outcomes); the format table is exercised by 2-8 tasks and checked for last-writer-wins "
+            "linearizability with porcupine and for races with the race binary; two pipelines format one event concurrently.",
+            "The formatter clauses are input generation; only the format-table and two-formatter clauses depend on the schedule.",
+            "deterministic simulation: seeded scheduler + race detector + porcupine for the table; seeded generation for the formatters", "4 C14"),
+    "C15": ("exploration",
+            "Sequential histories of writes, Reopen, external rename+Reopen and pauses (1, 29, 30, 31, 100 ms around MaxDuration=30ms) against a "
+            "FileSinkModel after every step: a write rotates iff bytes-since-open >= MaxBytes>0 or age > MaxDuration>0 (age bounded by the harness's "
+            "clock reads before/after the call; straddling cases are counted, not judged), never with both unset; active-file name, rotated names with "
+            "strictly increasing timestamps in creation order, modes, directory creation, at most MaxFiles rotated files right after a rotation, "
+            "removals only inside the name space, decoy files survive, BytesWritten matches.",
+            "The fake clock starts at a 2026 epoch (19-digit UnixNano) so that lexicographic pruning order is the realistic one.",
+            "deterministic simulation: fake clock with seeded ticks + disk seam + reference model", "4 C15"),
+    "C16": ("exploration",
+            "Byte strings incl. empty and non-UTF-8 canaries, salt/info on filter and event, event id present/absent; every encrypted value must "
+            "decrypt under the wrapper in force (filter's or the per-event wrapper, derived twice to check determinism), every HMAC equals an "
+            "independent HKDF-SHA256/HMAC-SHA256 computation; Rotate() and rotation payloads between events; concurrently, senders and a rotator "
+            "task interleave at the filter's lock operations and each value must verify under exactly one key version that could be in force.",
+            "AEAD nonces come from crypto/rand and never enter a decision.",
+            "deterministic simulation: seeded scheduler over the filter's lock points + independent crypto oracle", "4 C16"),
+    "C18": ("exploration",
+            "Configurations (source nil/empty/valid, schema unset/empty/set, format unset/json/text/invalid, predicate outcomes) x payload kinds "
+            "(plain, ID, Data, both, empty ID) with a harness signer that records its input and fails on plan, listed/unlisted types, Rotate between "
+            "events; the stored document is parsed back and compared member by member; serialized must decode to the bytes given to the signer and "
+            "serialized_hmac to the current signer's result; a failed signature must forward and store nothing.",
+            "Mostly input generation; the fault-dependent clause is the failing signer.",
+            "deterministic simulation harness: seeded configuration generation + signer fault injection", "4 C18"),
+    "C19": ("exploration",
+            "1-4 pipelines composed from the stock catalogue (Filter, JSON formatters, cloudevents, encrypt, gated wired to the Broker, file, "
+            "writer and channel sinks) with shared nodes and formatters in mid-pipeline, 2-8 sender tasks, control tasks calling Broker.Reopen, "
+            "encrypt Rotate, cloudevents Rotate and pauses that force time rotation. Race binary: any race report with a library frame; plain "
+            "binary: no panic, no deadlock, every line written by writer/file sinks is one whole JSON document, no secret plaintext behind the "
+            "encrypt filter.",
+            "The schedule digest of these runs is not compared across processes (Go's map order inside copystructure/reflect decides how many lock "
+            "steps come first); violations still replay by signature.",
+            "deterministic simulation: seeded scheduler + race detector under serialised schedules over compositions of real nodes", "4 C19"),
 }
 
 PENDING = ["C04", "C05", "C06", "C07", "C08", "C09", "C10", "C11", "C12", "C13", "C14", "C15", "C16", "C17", "C18", "C19", "C20"]
